@@ -68,7 +68,9 @@ def neutral_edits(rep, pid, files, analyse):
         viol = [o for o in sub.obligations if not o['ok'] and (o['rule'], o['instance']) not in known
                 and (o['rule'], o['instance']) not in {(b['rule'], b['instance']) for b in rep.obligations if not b['ok']}]
         keys = {(o['rule'], o['instance']) for o in sub.obligations}
-        drift = sorted(base ^ keys)[:3]
+        # compare over the rules this analysis function produces (a check may run extra rule families once, outside the mutant loop)
+        rules_sub = {r for r, _ in keys}
+        drift = sorted({(r, i) for (r, i) in base if r in rules_sub} ^ keys)[:3]
         ok = not viol and not sub.broken and not drift
         out.append(dict(file=rel, silent=ok, violations=[(o['rule'], o['instance']) for o in viol][:3], broken=sub.broken[:2], key_drift=drift))
         if not ok:
